@@ -170,6 +170,7 @@ type Exec struct {
 	oblIndex map[string][]*Obligation
 	// declarations of heap arrays and other global symbols that every query needs
 	globals   map[string]string // symbol -> sort
+	unsignedFam map[string]int // heap-leaf families of unsigned integer type: 1 = object field, 2 = array element
 	globOrder []string
 	typeTags  map[string]int
 	tagTypes  []types.Type
@@ -476,6 +477,27 @@ func (x *Exec) buildQuerySliced(ob *LogNode, dropNL bool, slice bool, closure bo
 				continue
 			}
 			fmt.Fprintf(&sb, "(assert %s)\n", n.T.S)
+		}
+	}
+	// type invariant of unsigned heap leaves: every cell of every version holds a value >= 0
+	// (spec-level loads cannot assume it locally: they may sit under a binder)
+	if len(x.unsignedFam) > 0 {
+		sofar := sb.String() + ob.T.S
+		seen := map[string]bool{}
+		for _, m := range symRe.FindAllString(sofar, -1) {
+			if seen[m] {
+				continue
+			}
+			seen[m] = true
+			kind, ok := x.unsignedFam[family(m)]
+			if !ok || family(m) == m {
+				continue
+			}
+			if kind == 2 {
+				fmt.Fprintf(&sb, "(assert (forall ((r!u Int) (i!u Int)) (! (>= (select (select %s r!u) i!u) 0) :pattern ((select (select %s r!u) i!u)))))\n", m, m)
+			} else {
+				fmt.Fprintf(&sb, "(assert (forall ((r!u Int)) (! (>= (select %s r!u) 0) :pattern ((select %s r!u)))))\n", m, m)
+			}
 		}
 	}
 	fmt.Fprintf(&sb, "(assert (not %s))\n", ob.T.S)
